@@ -21,7 +21,8 @@ RULE = ("classes built on the eligibility boundary of trusted deserialization: e
         "Array, Set, Map; non-optional AnyOf; nested classes (depth <= 2, thorough 3) bare and inside Array/Set/Map/Optional; "
         "Optional of Array/Set/Map/Tuple/Deque/Anything; Tuple, Deque, positional Array, StructureReference, untyped "
         "collections, OneOf/AllOf; _ignore_none, additional properties, defaults on optional scalar fields; 30% of class "
-        "trees with TO_CAMELCASE/TO_LOWERCASE/rename/unsupported mappers per class; mode trusted: JSON images of up to 4 "
+        "trees with TO_CAMELCASE/TO_LOWERCASE/rename/unsupported mappers per class; 20% of the mapper-free classes with >= 2 fields "
+        "declared as a SUBCLASS whose first k fields are inherited from a parent class; mode trusted: JSON images of up to 4 "
         "valid instances per class (+ nulls for optional fields, 'True'/'False' and ints for Boolean/Float, undeclared keys, "
         "single-point corruptions, keys in own-mapper / cascaded / field-name form), keep_undefined x "
         "ignore_invalid_additional_properties in 3x2; mode construct: cls(**kw) vs from_trusted_data(None, **kw) / "
@@ -36,10 +37,12 @@ RULE = ("classes built on the eligibility boundary of trusted deserialization: e
         "identically declared tree whose classes were instantiated by the validating constructor first; JSON arrays of Set fields repeat "
         "elements; every case builds fresh classes; distinct by case hash")
 ASSUMPTIONS = [
-    "fail-fast mode, no Versioned classes, no Constant fields, no class inheritance, no uniqueness features",
+    "fail-fast mode, no Versioned classes, no uniqueness features; class inheritance only as 'fields split over a parent and a child class' "
+    "(the model sees the flattened field list)",
     "rename mappers are injective on the class's fields (key collisions are C07's subject); one mapper per class, no lists of mappers "
     "except as the 'unsupported' kind",
-    "SerializableField types other than Enum (DateField, DateTime, TimeField, DecimalNumber) and Enum serialization_by_value are not in the model",
+    "SerializableField types other than Enum (DateField, DateTime, TimeField, DecimalNumber), Constant attributes and Enum serialization_by_value "
+    "are not in the model: mode enumvalue runs the property's oracle on the real code only (trusted deserialization, from_trusted_data, fast twin)",
     "the regular path with mappers is modelled as Spec/TrustedSafe.deserializeMapped (every class-level object read through its class's "
     "own simple mapper, then the mapper-free regular path) and corresponded where no named deviation of the real regular path applies "
     "(enclosing TO_CAMELCASE/TO_LOWERCASE reaching nested classes, chained parent mappers, field-name fallback, a renamed field's original "
